@@ -77,3 +77,10 @@ claim("C10", "DESIGN.md 5/C10",
       "stored id (all 32-bit values), the queried id, its spelling (0x/0X/none, digit case), reference-code characters, "
       "query strings, exclusion-file content and the log's hidden/report flags symbolic; the listed / displayed set "
       "must be exactly the matches ('PEL not found' / empty result otherwise), with no selection option given.")
+
+claim("C08", "DESIGN.md 5/C08",
+      "The real main() is executed three times per path (-n, -l, -a) in an in-memory world on the same directory with "
+      "the same symbolic options and symbolic log variants: the count, the --list entries and the --all-pels documents "
+      "must refer to the same logs in file-name order; --reverse / --extension are symbolic in the ordering harness (all "
+      "three modes), getFileList is executed on symbolic names, and every --list field is compared with the full decode "
+      "while one header / SRC field at a time is symbolic.")
